@@ -24,6 +24,10 @@ pub struct SState {
     pub pulled: usize,
     /// largest read buffer capacity offered by the code under test
     pub max_read_capacity: usize,
+    /// shutdown of the write side stays pending until released (a slow graceful close)
+    pub hold_shutdown: bool,
+    pub shutdown_waker: Option<Waker>,
+    pub shutdown_requested: bool,
 }
 
 #[derive(Clone)]
@@ -68,6 +72,19 @@ impl Handle {
         if let Some(w) = w {
             w.wake();
         }
+    }
+    pub fn hold_shutdown(&self, hold: bool) {
+        let w = {
+            let mut g = self.0.lock().unwrap();
+            g.hold_shutdown = hold;
+            if hold { None } else { g.shutdown_waker.take() }
+        };
+        if let Some(w) = w {
+            w.wake();
+        }
+    }
+    pub fn shutdown_requested(&self) -> bool {
+        self.0.lock().unwrap().shutdown_requested
     }
     pub fn take_out(&self) -> Vec<u8> {
         std::mem::take(&mut self.0.lock().unwrap().out)
@@ -136,8 +153,14 @@ impl AsyncWrite for SStream {
     fn poll_flush(self: Pin<&mut Self>, _cx: &mut Context<'_>) -> Poll<io::Result<()>> {
         Poll::Ready(Ok(()))
     }
-    fn poll_shutdown(self: Pin<&mut Self>, _cx: &mut Context<'_>) -> Poll<io::Result<()>> {
-        self.0.lock().unwrap().shutdown = true;
+    fn poll_shutdown(self: Pin<&mut Self>, cx: &mut Context<'_>) -> Poll<io::Result<()>> {
+        let mut g = self.0.lock().unwrap();
+        g.shutdown_requested = true;
+        if g.hold_shutdown {
+            g.shutdown_waker = Some(cx.waker().clone());
+            return Poll::Pending;
+        }
+        g.shutdown = true;
         Poll::Ready(Ok(()))
     }
 }
